@@ -28,7 +28,8 @@ def run_files(ctx):
     import c11_common as cc
     from uberjob.stores import BinaryFileStore, JsonFileStore, PickleFileStore, TextFileStore
     cls = {"json": JsonFileStore, "text": TextFileStore, "pickle": PickleFileStore, "binary": BinaryFileStore}
-    kinds = ["json", "text", "pickle", "binary"] if not ctx.quick else [ctx.rng.choice(["json", "pickle"]), ctx.rng.choice(["text", "binary"])]
+    ctx.rng.choice(["json", "pickle"]), ctx.rng.choice(["text", "binary"])       # (keeps the PRNG stream of earlier versions)
+    kinds = ["json", "text", "pickle", "binary"]
     for kind in kinds:
         for scenario in ("fresh", "after-update"):
             d = tempfile.mkdtemp(prefix="ujc08_")
